@@ -262,7 +262,9 @@ pub fn finalize(ctx: &Ctx, mut out: Outcome) -> i32 {
         "wall_s": (ctx.elapsed() * 1000.0).round() / 1000.0,
         "violations": unlisted_total,
     });
-    let evdir = ctx.root.join("evidence");
+    // VERIF_EVIDENCE_DIR: used by tools/seeded.py and tools/mutants.py, whose runs against a deliberately
+    // broken tree must not overwrite the evidence of the real one
+    let evdir = std::env::var_os("VERIF_EVIDENCE_DIR").map(PathBuf::from).unwrap_or_else(|| ctx.root.join("evidence"));
     std::fs::create_dir_all(&evdir).ok();
     let evpath = evdir.join(format!("{}.json", ctx.id));
     if let Err(e) = std::fs::write(&evpath, serde_json::to_string_pretty(&evidence).unwrap() + "\n") {
